@@ -31,10 +31,11 @@ THEOREM_NOTES = {
     "number system": "theorems are proved over Q inside a Section with an abstract additive non-negative interval mass "
                      "`mass : Q -> Q -> Q` (simplification of DESIGN 2.1: no Num record / R instance); composing with C09's real-valued "
                      "closed forms needs the same proof replayed over R (the proofs use only field/order reasoning: lra, induction)",
-    "C01_sum_rates_is_intensity_2d": "not proved (dimension 2/3 product grids): definitions intensity2/q_entry2 exist, the identity is "
-                                     "checked by the oracle on copula chains only",
+    "C01_sum_rates_is_intensity_2d": "proved for dimension 2 (any two admissible axes sharing the origin index; rectangle mass additive per "
+                                     "coordinate and non-negative on boxes avoiding the origin), with C01_cells_tile_2d and C01_rates_nonneg_2d; "
+                                     "tied by the exact group chain2d on density-table copulas; dimension 3 not proved (oracle only)",
 }
-LEVEL_TEXT = ("Proof: 9 Coq theorems (closed under the global context): for every admissible axis of any length, any middle function "
+LEVEL_TEXT = ("Proof: 12 Coq theorems (closed under the global context): for every admissible axis of any length, any middle function "
               "with the stated properties and any interval mass that is additive and non-negative away from the origin, the cells of the non-origin states tile "
               "[x_0,x_n] minus the central cell with shared end points and no overlap, every state lies in its cell, every rate is "
               ">= 0, and the sum of create_q_vector equals compute_intensity_of_jumps (telescoping); the truncated measure is the mass "
@@ -232,6 +233,7 @@ def correspond(res):
     _real_stream(res, rng, viol, 1 if not thorough else 4)
     _copula_stream(res, rng, viol)
     _param_pairs(res, rng, viol)
+    groups.append(_table_chain_group(res, rng, viol, 4 if not thorough else 30))
 
     header = ("From Coq Require Import ZArith QArith Qabs List Bool.\nFrom RV Require Import Base.QB Model.Grid Gen.GenC01Trunc Model.Chain.\n"
               "Open Scope Q_scope.")
@@ -525,6 +527,68 @@ def _param_pairs(res, rng, viol):
 def build_model_spec(sp):
     from stepmeasure import build_model
     return build_model(sp)
+
+
+def _table_chain_group(res, rng, viol, n_tables):
+    """copula chains on density-table Levy copulas (exact): compute_intensity_of_jumps and model.mass of every cell against
+    Model/Chain.v intensity2 / q_matrix2 (the objects of C01_sum_rates_is_intensity_2d)"""
+    from rpylib.process.markovchain.markovchainlevycopula import MarkovChainLevyCopula
+    from rpylib.distribution.sampling import SamplingMethod
+    from rpylib.distribution.samplingfactory import compute_intensity_of_jumps
+    from rpylib.grid.spatial import CTMCGrid
+    from stepmeasure import Table2, table_copula_model
+    from props.C03 import random_table, WITNESS_TABLE
+    import warnings
+    cases = []
+    tables = [Table2(WITNESS_TABLE)] + [random_table(rng, 2) for _ in range(n_tables)]
+    for t_i, table in enumerate(tables):
+        ax = rng.choice([[-2.0, -1.0, 0.0, 1.0, 2.0], [-2.0, -0.5, 0.0, 0.5, 2.0], [-2.0, -1.0, -0.5, 0.0, 0.5, 1.5, 2.0]])
+        o = ax.index(0.0)
+        grid = CTMCGrid(h=ax[o + 1], origin_coordinate=o, axes=[np.array(ax), np.array(ax)])
+        if rng.random() < 0.4:
+            grid.refine()
+        xs = [float(x) for x in grid.axes[0]]
+        o2 = grid.origin_coordinate.value[0]
+        ctx = dict(kind="table-chain", table=[[str(v) for v in p] for p in table.pieces], axis=xs, o=o2)
+        try:
+            with warnings.catch_warnings():
+                warnings.simplefilter("ignore")
+                chain = MarkovChainLevyCopula(levy_copula_model=table_copula_model(table), grid=grid, method=SamplingMethod.INVERSION)
+                lam = float(chain.intensity_of_jumps)
+                lam2 = float(compute_intensity_of_jumps(model=chain.model, grid=grid))
+                n = len(xs)
+                mat = []
+                for i in range(n):
+                    row = []
+                    for j in range(n):
+                        if (i, j) == (o2, o2):
+                            row.append(0.0)
+                        else:
+                            lo = tuple(0.5 * (xs[max(0, k - 1)] + xs[k]) for k in (i, j))
+                            hi = tuple(0.5 * (xs[k] + xs[min(n - 1, k + 1)]) for k in (i, j))
+                            row.append(float(chain.model.mass(lo, hi)))
+                    mat.append(row)
+        except Exception as e:  # noqa
+            viol(f"building the table-copula chain raises {type(e).__name__}", reason=str(e)[:200], **ctx)
+            continue
+        res.count(("table-chain", t_i, tuple(xs)), kind="copula chain on a density table (exact)")
+        tot = sum(Fr(v) for row in mat for v in row)
+        # independent: the table's own mass of every cell
+        for i in range(n):
+            for j in range(n):
+                if (i, j) != (o2, o2):
+                    lo = tuple((Fr(xs[max(0, k - 1)]) + Fr(xs[k])) / 2 for k in (i, j))
+                    hi = tuple((Fr(xs[k]) + Fr(xs[min(n - 1, k + 1)])) / 2 for k in (i, j))
+                    if Fr(mat[i][j]) != table.mass_q(lo, hi) or mat[i][j] < 0:
+                        viol("copula chain: rate of a state differs from the table's mass of its cell", state=[i, j], got=mat[i][j],
+                             want=float(table.mass_q(lo, hi)), **ctx)
+        if lam != lam2 or Fr(lam) != tot:
+            viol("copula chain: reported intensity differs from the sum of the rates", got=lam, want=float(tot), **ctx)
+        cases.append(f"({table.coq()}, {lst([qlit(x) for x in xs])}, {natlit(o2)}, {qlit(lam)}, "
+                     f"{lst([lst([qlit(v) for v in row]) for row in mat])})")
+    return ("chain2d", "list (Q * Q * Q * Q * Q) * list Q * nat * Q * list (list Q)",
+            "fun c => match c with (ps, xs, o, lam, m) => Qeq_bool (intensity2 amid (step_mass2 ps) xs xs o) lam && "
+            "qll_eqb (q_matrix2 amid (step_mass2 ps) xs xs o) m && Qeq_bool (qsum2 (q_matrix2 amid (step_mass2 ps) xs xs o)) lam end", cases)
 
 
 def search(res):
